@@ -22,6 +22,9 @@ fn cfgs() -> Vec<Entry> {
     c!(v, true,"grid",B1D,Stack<1>,dyn Cloneable);
     c!(v, true,"grid",B1D,StackN<0, 0>,dyn Cloneable);
     c!(v, true,"grid",ZD,Stack<5>,dyn Cloneable);
+    c!(v, true,"grid",W8A4D,Stack<32>,dyn Cloneable);
+    c!(v, true,"grid",P4A1D,Stack<9>,dyn Cloneable);
+    c!(v, true,"grid",H2A1,StackN<3, 6>,dyn Cloneable);
     v
 }
 fn main() { anyvec_mc::main_with(cfgs) }
